@@ -28,7 +28,9 @@ def rep_tree(repo):
                 repo_has(repo, index_entries(repo)[k][0]) and kind_of(index_entries(repo)[k][0]) == 1
                 and index_entries(repo)[k][1] == 33188
                 and fs_has(repo.path, k.decode("utf-8"))
-                and blob_id_bytes(fs_data(repo.path, k.decode("utf-8"))) == index_entries(repo)[k][0])))
+                and blob_id_bytes(fs_data(repo.path, k.decode("utf-8"))) == index_entries(repo)[k][0]))
+            # no untracked files in the work tree
+            and forall("str", lambda n: implies(fs_has(repo.path, n), n.encode("utf-8") in index_entries(repo))))
 
 
 @contract("xandikos.store.git.TreeGitStore._import_one",
@@ -62,6 +64,73 @@ class Tree_import_one:
     def ensures_order(self, name, data, result):
         # C04: objects are in the store before the ref moves; the index is rewritten last
         changed = old(self.ghost_M).get(name) != result.decode("ascii")
-        return (implies(changed, effect_names() == ["Acquire", "WriteFile", "AddObject", "AddObject", "Commit",
-                                                    "WriteIndex", "Release"])
-                and implies(not changed, effect_names() == ["Acquire", "WriteFile", "WriteIndex", "Release"]))
+        return (implies(changed, effect_names() == ["Acquire", "ReadIndex", "WriteFile", "AddObject", "AddObject",
+                                                    "Commit", "WriteIndex", "Release"])
+                and implies(not changed, effect_names() == ["Acquire", "ReadIndex", "WriteFile", "WriteIndex",
+                                                            "Release"]))
+
+
+@contract("xandikos.store.git.TreeGitStore._get_etag",
+          params={"self": "obj:xandikos.store.git.TreeGitStore", "name": "str"}, returns="str")
+class Tree_get_etag:
+    def requires(self, name):
+        return rep_tree(self.repo) and name != ".xandikos"
+
+    def raises_KeyError(self, name):
+        return name not in self.ghost_M
+
+    def ensures(self, name, result):
+        return result == self.ghost_M[name]
+
+
+@contract("xandikos.store.git.TreeGitStore.get_ctag",
+          params={"self": "obj:xandikos.store.git.TreeGitStore"}, returns="str", modifies=["self.repo"])
+class Tree_get_ctag:
+    """C08 + C07: the tag is the hash of the index as a tree, and that tree is in the object
+    store afterwards (so the token can be presented later)."""
+
+    def requires(self):
+        return rep_tree(self.repo)
+
+    def ensures(self, result):
+        return (result == tree_id_of(index_entries(self.repo)).decode("ascii")
+                and repo_has(self.repo, tree_id_of(index_entries(self.repo)))
+                and self.ghost_M == old(self.ghost_M)
+                and index_entries(self.repo) == old(index_entries(self.repo))
+                and repo_head(self.repo) == old(repo_head(self.repo))
+                and repo_ncommits(self.repo) == old(repo_ncommits(self.repo))
+                and forall("bytes", lambda o: implies(o in old(repo_objects(self.repo)), o in repo_objects(self.repo))))
+
+
+@contract("xandikos.store.git.TreeGitStore.delete_one",
+          params={"self": "obj:xandikos.store.git.TreeGitStore", "name": "str", "message": "opt[str]",
+                  "author": "opt[str]", "etag": "opt[str]"},
+          modifies=["self.repo", "fs()"])
+class Tree_delete_one:
+    def requires(self, name, etag):
+        return (rep_tree(self.repo) and name != ".xandikos"
+                and (etag is None or is_ascii(etag)))
+
+    def raises_NoSuchItem(self, name):
+        return name not in self.ghost_M
+
+    def raises_InvalidETag(self, name, etag):
+        return name in self.ghost_M and etag is not None and self.ghost_M[name] != etag
+
+    def raises_LockedError(self, name, etag):
+        return (name in self.ghost_M and not (etag is not None and self.ghost_M[name] != etag)
+                and repo_locked(self.repo))
+
+    def ensures(self, name):
+        return self.ghost_M == old(self.ghost_M).without(name)
+
+    def ensures_history(self, name):
+        return (rep_tree(self.repo)
+                and not repo_locked(self.repo)
+                and forall("bytes", lambda o: implies(o in old(repo_objects(self.repo)), o in repo_objects(self.repo)))
+                and repo_ncommits(self.repo) == old(repo_ncommits(self.repo)) + 1
+                and commit_parent(repo_head(self.repo)) == old(repo_head(self.repo)))
+
+view("xandikos.store.git.TreeGitStore", "ghost_locked", "tree_locked_view")
+
+view("xandikos.store.git.TreeGitStore", "ghost_trees", "trees_view")
